@@ -48,9 +48,9 @@ def tlc_par(ctx, jobs):
     def one(i, j):
         with sem:
             meta = os.path.join(ctx.work, "pmeta%d_%d" % (id(jobs) % 9973, i))
-            cmd = ["tlc", "-metadir", meta, "-config", j["cfg"], "-workers", "1"] + j.get("extra", []) + [j["spec"]]
+            cmd = ["tlc", "-metadir", meta, "-config", j["cfg"], "-workers", str(j.get("workers", 1))] + j.get("extra", []) + [j["spec"]]
             e = dict(os.environ)
-            e.setdefault("JAVA_TOOL_OPTIONS", "-Xss256m")
+            e.setdefault("JAVA_TOOL_OPTIONS", "-Xss256m -Xmx%dg" % j.get("heap", 4))
             e.update(j.get("env") or {})
             t = time.time()
             try:
@@ -200,10 +200,11 @@ def tiers(ctx):
     q = ctx.tier == "quick"
     allmasks = frozenset(range(256))
     optmasks = frozenset(range(128, 192, 2)) | frozenset(range(1, 64, 6)) | S(DEFAULT, 0, 255, 64 + 21) if q else allmasks
-    mc = layer(MaxNodes=3 if q else 4, MaxDepth=1, MaxInl=2, Atoms=S("w1", "e1"), Inls=S("em", "st", "code", "del") if q else S("em", "st", "code", "del", "math"),
-               TopKinds=S("p", "h", "ul", "q", "fence", "tbl", "mathb"), InKinds=S("p", "ul"),
-               HLevels=S(1, 3), HStyles=S("atx", "setext") if not q else S("atx"), Tasks=S("none", "open"), AllowSB=True,
+    mc = lambda q: layer(MaxNodes=3 if q else 4, MaxDepth=1, MaxInl=2, Atoms=S("w1", "e1"), Inls=S("em", "st", "code", "del") if q else S("em", "st", "code", "del", "math"),
+               TopKinds=S("p", "h", "ul", "q", "fence", "tbl", "mathb", "hr", "icode"), InKinds=S("p", "ul"),
+               HLevels=S(1, 3), HStyles=S("atx", "setext"), Tasks=S("none", "open"), AllowSB=True,
                LineSeqs="LS_one" if q else "LS_quick", UMasks=S(DEFAULT, 0, 190, 189, 183))
+    mc_small, mc = mc(True), mc(q)
     layers = {
         # every inline construct in every nesting of two, with soft breaks, in paragraphs and headings
         "inline": layer(MaxNodes=5 if q else 6, MaxInl=2, MaxKids=3, Inls=ALL_INL, TopKinds=S("p", "h"), HLevels=S(2),
@@ -215,10 +216,12 @@ def tiers(ctx):
                        Inls=S("em", "code", "link"), TopKinds=S("p", "h", "ul", "q"), InKinds=S("p"), HLevels=S(3)),
         # every block kind with its code / table / formula shapes, in every pair
         "blocks": layer(MaxNodes=2 if q else 3, MaxDepth=1, MaxInl=1, MaxKids=1, Atoms=S("w1"), Inls=S(),
-                        TopKinds=ALL_TOP, InKinds=S("p", "fence", "hr", "h"), HLevels=S(1, 4) if q else S(1, 2, 3, 4, 5, 6),
+                        TopKinds=ALL_TOP, InKinds=S("p", "fence", "hr", "h"), HLevels=S(1, 6) if q else S(1, 2, 3, 4, 5, 6),
                         HStyles=S("atx", "setext"), Tasks=S("none"),
-                        LineSeqs="LS_quick" if q else "LS_full", TblShapes="TS_quick" if q else "TS_full",
-                        CellSeq="CS_quick" if q else "CS_full"),
+                        LineSeqs="LS_quick", TblShapes="TS_quick", CellSeq="CS_quick" if q else "CS_full"),
+        # every code / table shape of the pools on its own
+        "shapes": layer(MaxNodes=1 if q else 2, MaxDepth=1, MaxInl=1, MaxKids=1, Atoms=S("w1"), Inls=S(), TopKinds=S("fence", "icode", "tbl", "mathb"),
+                        InKinds=S("p"), LineSeqs="LS_full", TblShapes="TS_full", CellSeq="CS_full", OVMasks=S(DEFAULT, 0, 189)),
         # every pair of block kinds next to each other
         "pairs": layer(MaxNodes=4, MaxDepth=1, MaxInl=1, MaxKids=1, Atoms=S("w1"), Inls=S(), TopKinds=ALL_TOP, InKinds=S("p"),
                        HLevels=S(3), HStyles=S("atx", "setext"), Tasks=S("none")),
@@ -234,7 +237,7 @@ def tiers(ctx):
         "calls": layer(MaxNodes=3, MaxDepth=1, MaxInl=1, MaxKids=1, Atoms=S("w1"), Inls=S("st"),
                        TopKinds=S("p", "h", "ul", "fence", "tbl", "q"), InKinds=S("p"), HLevels=S(2),
                        OVMasks=S(DEFAULT, 0) if q else S(DEFAULT, 0, 128 + 42, 21),
-                       OVApis=S("string", "bytes", "file", "batch"), OVCos=S("nil", "same"), OVWarms=vlib.Raw("{FALSE, TRUE}")),
+                       OVApis=S("string", "bytes", "file", "batch", "missing"), OVCos=S("nil", "same"), OVWarms=vlib.Raw("{FALSE, TRUE}")),
     }
     sim = dict(num=25, depth=60, limit=2000) if q else dict(num=300, depth=80, limit=30000)
     simc = layer(MaxNodes=10 if q else 14, MinNodes=5 if q else 6, MaxDepth=3, MaxInl=3, MaxKids=4,
@@ -249,8 +252,8 @@ def tiers(ctx):
         ("tot_core", TOT_CORE8 if q else TOT_CORE, 4, S(DEFAULT)),
         ("tot_opts", TOT_ALPHA, 1 if q else 2, allmasks),
     ]
-    deep = dict(DeepToks=DEEP, DeepNs=S(200, 3000) if q else S(200, 3000, 40000), MaskSet=S(DEFAULT) if q else S(DEFAULT, 0))
-    return mc, layers, simc, sim, tot, deep
+    deep = dict(DeepToks=DEEP, DeepNs=S(200, 3000) if q else S(200, 3000, 20000), MaskSet=S(DEFAULT) if q else S(DEFAULT, 0))
+    return mc, layers, simc, sim, tot, deep, mc_small
 
 
 def bounds_of(lay):
@@ -343,12 +346,10 @@ def pipeline(ctx, replay_case=None):
     if replay_case is not None:
         judge(ctx, [replay_case], "replay")
         return ctx.finish(LEVEL, RULE)
-    mc, layers, simc, sim, tot, deep = tiers(ctx)
+    mc, layers, simc, sim, tot, deep, mc_small = tiers(ctx)
     q = ctx.tier == "quick"
     mccfg = cfg_of(ctx, "mc.cfg", mc, LAWS, ["Act_Compositional"])
-    also = [dict(spec="MdIn_MC.tla", cfg=mccfg, timeout=600)]
-    if not q:
-        also.append(dict(spec="MdIn_MC.tla", cfg=mccfg, extra=["-coverage", "1"], timeout=900))
+    also = [dict(spec="MdIn_MC.tla", cfg=mccfg, timeout=600, workers=2 if q else 4, heap=8)]
     jobs = []
     for name, lay in layers.items():
         jobs.append(dict(tag=name, cfg=cfg_of(ctx, "gen_%s.cfg" % name, lay, ["Emit"]), timeout=1500))
@@ -365,10 +366,6 @@ def pipeline(ctx, replay_case=None):
             raise vlib.Machinery("TLC model check of MdIn_MC/mc.cfg did not pass:\n%s" % vlib.tail(out))
     m = re.search(r"(\d+) states generated, (\d+) distinct states found", mcout[0])
     ctx.mc_runs.append({"spec": "MdIn_MC.tla", "cfg": "mc.cfg", "generated": int(m.group(1)), "distinct": int(m.group(2))})
-    if not q:
-        acts = {a.group(1): int(a.group(2)) for a in re.finditer(r"^<(\w+) line \d+, col \d+ to line \d+, col \d+ of module MdIn_MC>: (\d+):\d+", mcout[1], re.M)}
-        ctx.extra_cov["mc_actions_covered"] = acts
-        ctx.extra_cov["mc_never_evaluated_expressions"] = len(re.findall(r": 0$", mcout[1], re.M))
     counts = {t: len(cs) for t, cs in by_tag.items()}
     cases = [c for j in jobs for c in by_tag[j["tag"]]]
     ctx.exhaustive = True
